@@ -241,12 +241,17 @@ fn run(op: &Value) -> Value {
             if let Some(ct) = op["content_type"].as_str() {
                 headers.insert(http::header::CONTENT_TYPE, http::HeaderValue::from_str(ct).unwrap());
             }
-            let chunk = hex(op["chunk"].as_str().unwrap_or(""));
-            let items = |c: &Vec<u8>| -> std::vec::IntoIter<Result<bytes::Bytes, conjure_error::Error>> { if c.is_empty() { vec![].into_iter() } else { vec![Ok(bytes::Bytes::from(c.clone()))].into_iter() } };
-            let o = <OptionalRequestDeserializer as DeserializeRequest<Option<i32>, _>>::deserialize(&rt, &headers, items(&chunk));
-            let b = <BinaryRequestDeserializer as DeserializeRequest<_, _>>::deserialize(&rt, &headers, items(&chunk)).map(|_: std::vec::IntoIter<Result<bytes::Bytes, conjure_error::Error>>| ());
-            json!({"optional": match o { Ok(Some(v)) => format!("some:{}", v), Ok(None) => "none".to_string(), Err(_) => "err".to_string() },
-                   "binary": if b.is_ok() { "ok" } else { "err" }})
+            // "chunks": explicit list of stream items (hex; possibly empty chunks); otherwise "chunk": one item, or no item when empty
+            let chunk_list: Vec<Vec<u8>> = match op["chunks"].as_array() {
+                Some(a) => a.iter().map(|c| hex(c.as_str().unwrap_or(""))).collect(),
+                None => { let c = hex(op["chunk"].as_str().unwrap_or("")); if c.is_empty() { vec![] } else { vec![c] } }
+            };
+            let items = |c: &Vec<Vec<u8>>| -> std::vec::IntoIter<Result<bytes::Bytes, conjure_error::Error>> { c.iter().map(|b| Ok(bytes::Bytes::from(b.clone()))).collect::<Vec<_>>().into_iter() };
+            let show = |o: Result<Option<i32>, conjure_error::Error>| match o { Ok(Some(v)) => format!("some:{}", v), Ok(None) => "none".to_string(), Err(_) => "err".to_string() };
+            let o = <OptionalRequestDeserializer as DeserializeRequest<Option<i32>, _>>::deserialize(&rt, &headers, items(&chunk_list));
+            let oa = futures::executor::block_on(<OptionalRequestDeserializer as conjure_http::server::AsyncDeserializeRequest<Option<i32>, _>>::deserialize(&rt, &headers, futures::stream::iter(items(&chunk_list))));
+            let b = <BinaryRequestDeserializer as DeserializeRequest<_, _>>::deserialize(&rt, &headers, items(&chunk_list)).map(|_: std::vec::IntoIter<Result<bytes::Bytes, conjure_error::Error>>| ());
+            json!({"optional": show(o), "optional_async": show(oa), "binary": if b.is_ok() { "ok" } else { "err" }})
         }
         "server_body" => {
             use conjure_error::Error;
